@@ -186,11 +186,14 @@ void wbxml_tree_clb_wbxml_characters(void *ctx, WB_UTINY *ch, WB_ULONG start, WB
          * of </Data> element.
          */
 
-        /* Add new CDATA Node */
-        tree_ctx->current = wbxml_tree_add_cdata(tree_ctx->tree, tree_ctx->current);
-        if (tree_ctx->current == NULL) {
-            tree_ctx->error = WBXML_ERROR_INTERNAL;
-            return;
+        /* Add new CDATA Node (unless we already are in the CDATA section of this element:
+         * several content items of one element belong to one CDATA section) */
+        if (tree_ctx->current->type != WBXML_TREE_CDATA_NODE) {
+            tree_ctx->current = wbxml_tree_add_cdata(tree_ctx->tree, tree_ctx->current);
+            if (tree_ctx->current == NULL) {
+                tree_ctx->error = WBXML_ERROR_INTERNAL;
+                return;
+            }
         }
 
         /* Now we can add the Text Node */
